@@ -272,7 +272,7 @@ pub fn op_lst(f: &[String]) -> String
                 Some(r) =>
                 {
                     let b = defs.bankdefs.get(r);
-                    format!("{{\"addr_start\":{},\"outp\":{}}}", bigint_json(&b.addr_start),
+                    format!("{{\"addr_start\":{},\"addr_unit\":{},\"outp\":{}}}", bigint_json(&b.addr_start), b.addr_unit,
                         match b.output_offset { Some(o) => o.to_string(), None => "null".to_string() })
                 }
                 None => "null".to_string(),
